@@ -94,6 +94,8 @@ func main() {
 	r := cfg.Rand
 	s := hx.NewStream("history", "model.RenderTypes model.Render model.RenderCheck", "hcase", "c01_mismatches", "c01_violations")
 	s.ShardMax = 40
+	s.Known = "c01_known"
+	s.KnownClass = "wide-overhang"
 	nHist := 320
 	maxRows, maxCols, maxFrames := 5, 10, 9
 	if cfg.Thorough() {
@@ -123,6 +125,7 @@ func main() {
 		}
 		fc.Take()
 		valid := r.Intn(8) != 0 // most histories only use cells whose width the terminal agrees with
+		overhang := h < 2 || r.Intn(25) == 0 // corpus + a few random histories with the recorded finding
 		var fterms []string
 		var fjson []interface{}
 		nf := 2 + r.Intn(maxFrames)
@@ -136,7 +139,11 @@ func main() {
 				nops += 3
 			}
 			for k := 0; k < nops; k++ {
-				switch r.Intn(12) {
+				sel := r.Intn(12)
+				if overhang && f == 0 && k == 0 {
+					sel = 11
+				}
+				switch sel {
 				case 0:
 					st := randStyle(r)
 					col, row := r.Intn(cols+1)-0, r.Intn(rows+1)
@@ -178,7 +185,12 @@ func main() {
 					if w == 0 {
 						w = vx.RenderedWidth(c.Grapheme)
 					}
-					if valid && w > 1 && col+w > cols {
+					if overhang && k == 0 && f == 0 {
+						c = vaxis.Cell{Character: vaxis.Character{Grapheme: "漢"}}
+						w = vx.RenderedWidth(c.Grapheme)
+						col, row = cols-1, 0
+					}
+					if valid && !overhang && w > 1 && col+w > cols {
 						// keep wide cells off the right edge in "valid" histories (finding wide-overhang)
 						if cols >= w {
 							col = r.Intn(cols - w + 1)
